@@ -8,4 +8,192 @@ theorem slice_inplace_eq (a : Annotation) (s e : Int) : sliceInplace a s e = sli
     cases a; simp_all
   · split <;> split <;> simp_all
 
+theorem slice_residues (a : Annotation) (s e : Nat) (hs : s ≤ e) (he : e ≤ a.seq.length) :
+    residues (slice a s e) = ((residues a).drop s).take (e - s) := by
+  apply List.ext_getElem?
+  intro i
+  rw [residues_getElem?, slice_seq, pySlice_nat, List.getElem?_take, List.getElem?_take, List.getElem?_drop,
+    List.getElem?_drop, residues_getElem?]
+  have h1 : min s a.seq.length = s := by omega
+  have h2 : min e a.seq.length = e := by omega
+  rw [h1, h2]
+  by_cases hi : i < e - s
+  · simp only [hi, if_true]
+    rw [modsAt_slice a s e i (by omega)]
+  · simp [hi]
+
+theorem reverse_residues (a : Annotation) (sw : Bool) : residues (reverse a sw) = (residues a).reverse := by
+  apply List.ext_getElem?
+  intro i
+  rw [residues_getElem?]
+  by_cases hi : i < a.seq.length
+  · rw [List.getElem?_reverse (by rw [residues_length]; exact hi), residues_getElem?, residues_length,
+      modsAt_reverse a sw i hi]
+    show a.seq.reverse[i]?.map _ = _
+    rw [List.getElem?_reverse hi]
+  · have h1 : (reverse a sw).seq[i]? = none := by
+      show a.seq.reverse[i]? = none
+      simp; omega
+    have h2 : (residues a).reverse[i]? = none := by
+      simp [residues_length]; omega
+    rw [h1, h2]; rfl
+
+theorem reverse_reverse (a : Annotation) (sw : Bool) (hint : a.internal ≠ some [])
+    (hiv : ∀ l, a.intervals = some l → ∀ iv ∈ l, iv.start ≤ iv.stop) :
+    reverse (reverse a sw) sw = a := by
+  obtain ⟨seq, iso, sta, lab, unk, nt, ct, int, ivs, ch, add⟩ := a
+  simp only [reverse, List.length_reverse, List.reverse_reverse]
+  congr 1
+  · cases sw <;> rfl
+  · cases sw <;> rfl
+  · cases int with
+    | none => rfl
+    | some d =>
+      cases d with
+      | nil => exact absurd rfl hint
+      | cons p t =>
+        simp only [List.map_cons, List.map_map]
+        rw [reverseEntry_involutive]
+        congr 2
+        exact map_eq_self _ t (fun q _ => reverseEntry_involutive _ q)
+  · cases ivs with
+    | none => rfl
+    | some l =>
+      simp only [Option.map_some, List.map_reverse, List.reverse_reverse, List.map_map]
+      congr 1
+      exact map_eq_self _ l (fun iv hiv' => reverseInterval_involutive _ iv (hiv l rfl iv hiv'))
+
+theorem shift_residues (a : Annotation) (k : Int) (hn : a.seq ≠ []) (hk : KeysOK a) :
+    ∃ b, shift a k = .ok b ∧
+      residues b = (residues a).drop (k % (a.seq.length : Int)).toNat ++
+        (residues a).take (k % (a.seq.length : Int)).toNat := by
+  obtain ⟨b, hb, hseq, hint, -⟩ := shift_spec a k hn hk
+  refine ⟨b, hb, ?_⟩
+  have hlen : 0 < a.seq.length := List.length_pos_iff.mpr hn
+  have hn0 : ¬ ((a.seq.length : Int) = 0) := by omega
+  have he0 : 0 ≤ k % (a.seq.length : Int) := Int.emod_nonneg _ hn0
+  have he : k % (a.seq.length : Int) < a.seq.length := Int.emod_lt_of_pos _ (by omega)
+  generalize hE : k % (a.seq.length : Int) = eff at *
+  obtain ⟨e, rfl⟩ := Int.eq_ofNat_of_zero_le he0
+  simp only [Int.toNat_natCast] at *
+  apply List.ext_getElem?
+  intro i
+  rw [residues_getElem?, hseq, List.getElem?_append, List.getElem?_append]
+  simp only [List.length_drop, residues_length, List.getElem?_drop, List.getElem?_take]
+  by_cases h1 : i < a.seq.length - e
+  · simp only [h1, if_true]
+    rw [residues_getElem?]
+    rw [modsAt_shift a b e he0 he hk hint i (e + i) (by omega) (by omega) (by split <;> omega)]
+  · simp only [h1, if_false]
+    by_cases h2 : i - (a.seq.length - e) < e
+    · simp only [h2, if_true]
+      rw [residues_getElem?]
+      rw [modsAt_shift a b e he0 he hk hint i (i - (a.seq.length - e)) (by omega) (by omega) (by split <;> omega)]
+    · simp [h2]
+
+theorem shift_shift_neg_partial (a : Annotation) (k : Int) (hn : a.seq ≠ []) (hk : KeysOK a)
+    (hint : a.internal ≠ some []) (hiv : a.intervals = none) :
+    ∃ b, shift a k = .ok b ∧ shift b (-k) = .ok a := by
+  obtain ⟨b, hb, hseq, hbint, hbiv, g1, g2, g3, g4, g5, g6, g7, g8⟩ := shift_spec a k hn hk
+  refine ⟨b, hb, ?_⟩
+  have hlen : 0 < a.seq.length := List.length_pos_iff.mpr hn
+  have hn0 : ¬ ((a.seq.length : Int) = 0) := by omega
+  have he0 : 0 ≤ k % (a.seq.length : Int) := Int.emod_nonneg _ hn0
+  have he : k % (a.seq.length : Int) < a.seq.length := Int.emod_lt_of_pos _ (by omega)
+  have hneg := neg_emod_range k a.seq.length (by omega)
+  generalize hE : k % (a.seq.length : Int) = eff at *
+  obtain ⟨e, rfl⟩ := Int.eq_ofNat_of_zero_le he0
+  simp only [Int.toNat_natCast] at hseq
+  have hblen : b.seq.length = a.seq.length := by
+    rw [hseq]; simp; omega
+  have hbn : b.seq ≠ [] := by
+    intro h; rw [h] at hblen; simp at hblen; omega
+  have hkb : KeysOK b := by
+    intro d hd
+    rw [hbint] at hd
+    cases hda : a.internal with
+    | none => rw [hda] at hd; cases hd
+    | some da =>
+      obtain ⟨hnd, hr⟩ := hk da hda
+      rw [hda] at hd
+      cases da with
+      | nil => cases hd
+      | cons p t =>
+        simp only [Option.some.injEq] at hd
+        subst hd
+        refine ⟨shift_keys_nodup _ _ _ he0 he hnd hr, ?_⟩
+        intro q hq
+        simp only [List.mem_map] at hq
+        obtain ⟨r, _, rfl⟩ := hq
+        rw [hblen]
+        exact ⟨Int.emod_nonneg _ hn0, Int.emod_lt_of_pos _ (by omega)⟩
+  obtain ⟨c, hc, hcseq, hcint, hciv, c1, c2, c3, c4, c5, c6, c7, c8⟩ := shift_spec b (-k) hbn hkb
+  rw [hc]
+  congr 1
+  rw [hblen] at hcseq hcint hciv
+  rw [hneg] at hcseq hcint hciv
+  apply Annotation.ext'
+  · rw [hcseq, hseq]
+    by_cases h0 : (e : Int) = 0
+    · have : e = 0 := by omega
+      subst this; simp
+    · simp only [h0, if_false]
+      have : ((a.seq.length : Int) - (e : Int)).toNat = a.seq.length - e := by omega
+      rw [this, List.drop_left' (by simp), List.take_left' (by simp), List.take_append_drop]
+  · rw [c1, g1]
+  · rw [c2, g2]
+  · rw [c3, g3]
+  · rw [c4, g4]
+  · rw [c7, g7]
+  · rw [c8, g8]
+  · rw [hcint, hbint]
+    cases hda : a.internal with
+    | none => rfl
+    | some da =>
+      cases da with
+      | nil => exact absurd hda hint
+      | cons p t =>
+        obtain ⟨_, hr⟩ := hk _ hda
+        simp only [List.map_cons, List.map_map]
+        rw [shiftEntry_inverse e _ _ he0 he rfl p (hr p (by simp))]
+        congr 2
+        exact map_eq_self _ t (fun q hq => shiftEntry_inverse e _ _ he0 he rfl q (hr q (by simp [hq])))
+  · rw [hciv, hbiv, hiv]
+  · rw [c5, g5]
+  · rw [c6, g6]
+
+theorem shift_multiple_partial (a : Annotation) (k : Int) (hn : a.seq ≠ []) (hk : KeysOK a)
+    (hint : a.internal ≠ some []) (hiv : a.intervals = none) (hmul : k % (a.seq.length : Int) = 0) :
+    shift a k = .ok a := by
+  obtain ⟨b, hb, hseq, hbint, hbiv, g1, g2, g3, g4, g5, g6, g7, g8⟩ := shift_spec a k hn hk
+  rw [hb]
+  congr 1
+  rw [hmul] at hseq hbint hbiv
+  have hlen : 0 < a.seq.length := List.length_pos_iff.mpr hn
+  apply Annotation.ext' _ g1 g2 g3 g4 g7 g8 _ _ g5 g6
+  · rw [hseq]; simp
+  · rw [hbint]
+    cases hda : a.internal with
+    | none => rfl
+    | some da =>
+      cases da with
+      | nil => exact absurd hda hint
+      | cons p t =>
+        obtain ⟨_, hr⟩ := hk _ hda
+        simp only
+        congr 1
+        apply map_eq_self
+        intro q hq
+        have h1 := hr q hq
+        unfold shiftEntry
+        ext
+        · simp only [Int.sub_zero]
+          exact Int.emod_eq_of_lt h1.1 h1.2
+        · rfl
+  · rw [hbiv, hiv]
+
+theorem shift_length_partial (a : Annotation) (hn : a.seq ≠ []) (hk : KeysOK a)
+    (hint : a.internal ≠ some []) (hiv : a.intervals = none) : shift a a.seq.length = .ok a :=
+  shift_multiple_partial a _ hn hk hint hiv Int.emod_self
+
 end Pept.Reorder.C11
